@@ -178,7 +178,7 @@ fn c10_blocks(ctx: &Ctx) -> Vec<Blk> {
         // Miri: programs of <= 1 operation, capped
         for prog in programs(2, 1) {
             for policy in POLICIES {
-                b.push(Blk::Enum { chunk: 2, gzip: None, prog: prog.clone(), policy, cap: 12, bound: u32::MAX });
+                b.push(Blk::Enum { chunk: 2, gzip: None, prog: prog.clone(), policy, cap: 60, bound: u32::MAX });
             }
         }
         b.push(Blk::Stress { chunk: 2, gzip: None, n: 3, salt: 0 });
